@@ -4,6 +4,9 @@ TestQueue (worker side, via wsim.WorkerSim). execnet and test execution are fake
 A schedule is a list of labels, the same type as Model/System.v's [label]."""
 from __future__ import annotations
 
+import contextlib
+import io
+
 import collections
 import re
 import types
@@ -221,6 +224,8 @@ class Sim:
         if name == "pytest_xdist_make_scheduler":
             return self.ds.pytest_xdist_make_scheduler(config=kw["config"], log=kw["log"])
         if name == "pytest_report_from_serializable":
+            if getattr(kw["data"]["rep"], "outcome", None) == "garbled":
+                raise ValueError("cannot rebuild the report")     # e.g. a plugin's report type the controller does not know
             ns = types.SimpleNamespace(**vars(kw["data"]["rep"]))
             if "item_index" in kw["data"]:
                 ns.item_index = kw["data"]["item_index"]
@@ -310,7 +315,8 @@ class Sim:
                 return ["disabled"]
             ev = w.upwire.popleft()
             try:
-                self.nodes[n].process_from_remote(self.END if ev == "END" else ev)
+                with contextlib.redirect_stdout(io.StringIO()):       # the undecodable-message path prints
+                    self.nodes[n].process_from_remote(self.END if ev == "END" else ev)
             except BaseException as e:  # noqa: BLE001
                 self.result = ["error", self.excname(e)]
         elif k == "ctl":
